@@ -210,7 +210,7 @@ def nest_events(quick):
     """Deep nesting runs in a subprocess each: a stack overflow kills only that process."""
     b = build_harness()
     evs = []
-    depths = [1, 2, 127, 128, 129, 1000, 100000] if quick else [1, 2, 3, 64, 127, 128, 129, 130, 256, 1000, 10000, 100000, 1000000]
+    depths = [1, 2, 127, 128, 129, 1000, 100000, 1000000] if quick else [1, 2, 3, 64, 127, 128, 129, 130, 256, 1000, 10000, 100000, 1000000, 4000000]
     for kind in ("paren", "not"):
         for n in depths:
             case = {"fn": "query", "nest": n, "kind": kind, "docs": [["a"], [], ["b"]]}
